@@ -850,6 +850,15 @@ func longConversationCases(tier string) (out []struct {
 				name  string
 				files []fileSet
 			}{fmt.Sprintf("long conversation: %d runs of %d-byte chunks between ordinary streams", runs, chunk), []fileSet{older, newer}})
+			// the long conversation itself is superseded by a newer file: the merge has to pass over its thousands of
+			// packet records and payload bytes and go on with the streams stored behind it
+			if n == ns[0] || n == ns[len(ns)-1] || n == 8172 {
+				top := fileSet{"top", []*ref.StreamSpec{short(10, "c.pcap", "ten-new"), short(13, "c.pcap", "thirteen")}}
+				out = append(out, struct {
+					name  string
+					files []fileSet
+				}{fmt.Sprintf("long conversation: %d runs of %d-byte chunks between ordinary streams, superseded by a third file", runs, chunk), []fileSet{older, newer, top}})
+			}
 		}
 	}
 	return
@@ -857,7 +866,7 @@ func longConversationCases(tier string) (out []struct {
 
 func checkLongConversations(rep *mc.Reporter, root, tier string, deadline time.Time) (done, total int) {
 	cases := longConversationCases(tier)
-	ref.InternFiles("a.pcap", "b.pcap")
+	ref.InternFiles("a.pcap", "b.pcap", "c.pcap")
 	var queries []parsedQuery
 	for _, t := range []string{"", "cdata:nine", "sdata:oktwelve", "cdata:0000003 then sdata:0000004", "sort:cbytes,id limit:3", "cbytes:1000:"} {
 		q, err := query.Parse(t)
@@ -871,7 +880,8 @@ func checkLongConversations(rep *mc.Reporter, root, tier string, deadline time.T
 		if time.Now().After(deadline) {
 			return
 		}
-		for k, files := range [][]fileSet{cases[i].files, {cases[i].files[1], cases[i].files[0]}} {
+		swapped := append([]fileSet{cases[i].files[1], cases[i].files[0]}, cases[i].files[2:]...)
+		for k, files := range [][]fileSet{cases[i].files, swapped} {
 			name := cases[i].name
 			if k == 1 {
 				name += " (stacked the other way round)"
